@@ -571,12 +571,13 @@ def thorough(ctx):
 def mutants():
     from ..selftest import TextMutant as T
     return [
+        T("svg-url-case-sensitive", REL, "                                         unescape(attrs[attr]),\n                                         flags=re.I)", "                                         unescape(attrs[attr]))", "R9.9"),
         T("uri-gate-double-delete", REL, "                    elif uri.scheme == 'data':", "                    if uri.scheme == 'data':", "R9.8"),
         T("url-strip-needs-nonspace", REL, "r'url\\s*\\([^)]*\\)\\s*'", "r'url\\s*\\(\\s*[^\\s)]+?\\s*\\)\\s*'", "R9.5"),
         T("url-strip-case-sensitive", REL, "[^)]*\\)\\s*', re.I).sub(' ', style)", "[^)]*\\)\\s*').sub(' ', style)", "R9.5"),
         T("url-strip-empty-replacement", REL, "[^)]*\\)\\s*', re.I).sub(' ', style)", "[^)]*\\)\\s*', re.I).sub('', style)", "R9.5"),
-        T("svg-url-strip-once", REL, "                                         unescape(attrs[attr]))\n            if (token[\"name\"] in self.svg_allow_local_href",
-          "                                         unescape(attrs[attr]), 1)\n            if (token[\"name\"] in self.svg_allow_local_href", "R9.6"),
+        T("svg-url-strip-once", REL, "                                         unescape(attrs[attr]),\n                                         flags=re.I)",
+          "                                         unescape(attrs[attr]),\n                                         count=1, flags=re.I)", "R9.6"),
         T("no-c1-strip", REL, "                val_unescaped = re.sub(\"[`\\x00-\\x20\\x7f-\\xa0\\\\s]+\", '',", "                val_unescaped = re.sub(\"[`\\x00-\\x20\\xa0\\\\s]+\", '',", "R9.3"),
         T("comment-through", REL, "        elif token_type == \"Comment\":\n            pass\n        else:\n            return token",
           "        else:\n            return token", "R9.1"),
